@@ -49,7 +49,8 @@ CachedEv(p, j) ==
 StartFails(p) == /\ ~Readable /\ ~FixF5 /\ UNCHANGED vars
 
 Logged ==
-  \/ IsEvent("h.start") /\ StartProc(Ev.p)
+  \/ IsEvent("tok.init") /\ StartProc(Ev.p) /\ avail'[Ev.p] = Ev.available
+  \/ IsEvent("h.start") /\ Stutter
   \/ IsEvent("tok.init.error") /\ StartFails(Ev.p)
   \/ IsEvent("h.submit") /\ Submit(Ev.job)
   \/ IsEvent("tok.acq.lock") /\ Lock(Ev.p, "acq", Ev.job)
@@ -67,7 +68,7 @@ Logged ==
   \/ IsEvent("tok.watch.reclaim") /\ ReclaimDecide(Ev.p, Ev.job)
   \/ IsEvent("tok.evt.cached") /\ CachedEv(Ev.p, Ev.job)
   \/ IsEvent("tok.evt.error") /\ OnCreatedOrModified(Ev.p, Ev.by, Ev.job) /\ ~obs'[Ev.p]
-  \/ IsEvent("tok.evt.deleted") /\ OnDeleted(Ev.p, Ev.job) /\ avail'[Ev.p] = Ev.available
+  \/ IsEvent("tok.evt.deleted") /\ OnDeleted(Ev.p, Ev.job)      \* (the in-memory count outside the ipc lock is allowed to drift)
   \/ IsEvent("tok.dep.changed") /\ (IF dstat[Ev.job] = Ev.new THEN Stutter ELSE Recheck(Ev.p, Ev.job) /\ dstat'[Ev.job] = Ev.new)
   \/ IsEvent("h.abort") /\ Abort(Ev.job)
   \/ IsEvent("h.jobstart") /\ JobStart(Ev.job)
